@@ -234,8 +234,16 @@ func (x *Exec) selectOp(fr *Frame, st *State, in *ssa.Select) Value {
 	for i, s := range in.States {
 		if s.Dir == types.SendOnly {
 			cst := st.Clone()
-			cst.Assume(Eq(idx, BVConstU(uint64(i), 64)))
+			chosen := Eq(idx, BVConstU(uint64(i), 64))
+			cst.Assume(chosen)
 			x.checkEvent(fr, cst, "send", s.Chan, x.operand(fr, st, s.Send), s.Send.Type())
+			// on the continuing path the send has happened exactly when this case was chosen
+			key := "$sent:" + x.describeFuncSource(s.Chan)
+			if prev, ok := st.ghost[key].(*Term); ok {
+				st.ghost[key] = Or(prev, chosen)
+			} else {
+				st.ghost[key] = chosen
+			}
 		}
 	}
 	return &TupleV{elems}
